@@ -18,7 +18,7 @@ def mailbox_programs(tier):
 
     def add(name, cap, scripts, hp=0, tag='q', **kw):
         d = dict(name=name, cap=cap, scripts=scripts, hp=hp, tag=tag, pre=(), started_actions=(), strategy='RestartOnly',
-                 faults=0, max_clock=None, K=None, max_steps=60, started=None, owning=False, registry=False, mt=False, children=(), broker=None)
+                 faults=0, max_clock=None, K=None, max_steps=60, started=None, owning=False, registry=False, mt=False, children=(), broker=None, entry=None)
         d.update(kw)
         P.append(d)
     # FIFO across paths and clients, own result, stop barrier
@@ -57,6 +57,15 @@ def mailbox_programs(tier):
     add('timers_restart', None, {'c1': [('restart', A), ('ping', A)]}, started_actions=(('interval', 'tick', 2),), max_clock=4, K=2, max_steps=20)
     add('timers_restart_recreate', None, {'c1': [('restart', A), ('ping', A), ('stop', A)]}, started_actions=(('interval', 'tick', 2),), max_clock=4, K=2, max_steps=22, strategy='RecreateFromDefault', tag='t')
     add('timers_fail_restart', None, {'c1': [('restart', A), ('ping', A)]}, started_actions=(('delayed_exec', 'de', 3), ('interval', 'tick', 2)), started={2: 'err'}, max_clock=6, K=1, max_steps=22)
+    # restart strategies through the builder terminals (C07): the strategy named by the builder chain must be the one that serves restarts
+    for ep, strat in (('build_spawn', 'RestartOnly'), ('build_spawn_owning', 'RestartOnly'), ('build_recreate_spawn', 'RecreateFromDefault'),
+                      ('build_recreate_spawn_owning', 'RecreateFromDefault'), ('build_non_restartable_spawn', 'NonRestartable'),
+                      ('build_non_restartable_spawn_owning', 'NonRestartable'), ('spawn', 'RestartOnly'), ('spawn_owning', 'RestartOnly')):
+        if ep.endswith('owning'):
+            sc = [('entry', ep), ('to_addr', 'o', 'a'), ('call', 'a', 'a1'), ('restart', 'a'), ('call', 'a', 'a2'), ('stop', 'a'), ('join', 'o')]
+        else:
+            sc = [('entry', ep), ('call', A, 'a1'), ('restart', A), ('call', A, 'a2'), ('stop', A), ('await', A)]
+        add('strategy_' + ep, None, {'c1': sc}, entry=ep, strategy=strat, K=1)
     # OwningAddr (C17; join futures also serve C02 'everything resolves')
     O = 'o'
     add('own_join_twice', None, {'c1': [('o_call', O, 'a1'), ('to_addr', O, 'a'), ('stop', 'a'), ('join', O), ('join', O)]}, owning=True)
@@ -107,6 +116,16 @@ def evaluate(tr, status, cap, scripts, spec=None):
         out['C02'] += oracle_resolves(tr, status, scripts)
         out['C06'] += [m for m in oracle_containment(tr, status, scripts) if 'callback' not in m]
         return out
+    if spec is not None and spec.get('entry'):
+        from prog_entry import oracle_restart_strategy
+        out['C07'] += oracle_restart_strategy(tr, spec['strategy'])
+        out['C01'] += oracle_fifo(tr, scripts)
+        out['C02'] += oracle_own_result(tr, scripts)
+        out['C02'] += oracle_resolves(tr, status, scripts)
+        out['C04'] += oracle_stop_barrier(tr, scripts)
+        if spec['entry'].endswith('owning'):
+            out['C17'] += oracle_owning(tr, status, scripts)
+        return out
     if spec is not None and spec.get('registry'):
         out['C08'] += oracle_registry(tr, status, scripts)
         out['C02'] += oracle_resolves(tr, status, scripts)
@@ -147,7 +166,11 @@ def make_program(functions, enums, repo, spec, spawner=None):
     sy.user_script['started_actions'] = spec['started_actions']
     for k, v in (spec['started'] or {}).items():
         sy.user_script[('started', k)] = v
-    if spec['broker']:
+    if spec.get('entry'):
+        from prog_entry import EntryProgram
+        sy.strategy = 'RestartOnly'
+        p = EntryProgram(sy, None, scripts, max_steps=spec['max_steps'])
+    elif spec['broker']:
         for i in spec['broker']['subscribers']:
             sy.user_script[('started_actions', f'ctx{i-1}')] = (('subscribe',),)
         p = BrokerProgram(sy, cap, scripts, handler_pending=hp, max_steps=spec['max_steps'], pre=pre, nchildren=spec['broker']['nactors'])
@@ -182,10 +205,11 @@ def run(functions, enums, repo, tier, max_steps=60, seed=0, validate=None):
     stats['traces_validated_against_impl'] = 0
     stats['native_mismatches'] = []
     stats['native_confirmations'] = {}
+    native_strat = None
     for spec in mailbox_programs(tier):
         name, cap, scripts, hp, pre = spec['name'], spec['cap'], spec['scripts'], spec['hp'], spec['pre']
         sy, p = make_program(functions, enums, repo, spec)
-        native_ok = not spec['broker'] and not spec['children'] and not spec['registry'] and not spec['owning'] and not spec['started_actions'] and not spec['faults'] and not spec['started'] and \
+        native_ok = not spec.get('entry') and not spec['broker'] and not spec['children'] and not spec['registry'] and not spec['owning'] and not spec['started_actions'] and not spec['faults'] and not spec['started'] and \
             not any(str(op[2]).startswith('panic') for sc in scripts.values() for op in sc if len(op) > 2)
         st = p.setup()
         n = 0
@@ -246,8 +270,33 @@ def run(functions, enums, repo, tier, max_steps=60, seed=0, validate=None):
                 stats['traces_validated_against_impl'] += 1
             else:
                 stats['native_mismatches'].append(f"{name}: {diff}")
+        if spec.get('entry') and name.startswith('strategy_'):
+            import native_entry
+            if native_strat is None:
+                native_strat = native_entry.strategies()
+            got = native_strat.get(name)
+            want = {'RestartOnly': ['stopped', 'started'], 'RecreateFromDefault': ['stopped', 'default', 'started'], 'NonRestartable': []}[spec['strategy']]
+            flagged = any(pid == 'C07' for (pid, m) in first_witness)
+            if got == want and not flagged:
+                stats['traces_validated_against_impl'] += 1
+            elif got != want and not flagged:
+                stats['native_mismatches'].append(f"{name}: symbolic exploration finds nothing, the native run served the restart with {got}")
         # ---- native confirmation of every distinct violation (first witness)
         for (pid, m), (leaf, tr, rec) in first_witness.items():
+            if spec.get('entry') and pid == 'C07' and 'restart request of an actor configured' in m:
+                # builder strategy programs: the same program on the real crate (hv-entry strategies)
+                import native_entry
+                if native_strat is None:
+                    native_strat = native_entry.strategies()
+                got = native_strat.get(name)
+                want = {'RestartOnly': ['stopped', 'started'], 'RecreateFromDefault': ['stopped', 'default', 'started'], 'NonRestartable': []}[spec['strategy']]
+                confirmed = got is not None and got != want
+                for r in results[pid]:
+                    if r['prog'] == name and r['msg'] == m:
+                        r['native_confirmed'] = confirmed
+                        r['native_note'] = f"native run served the restart with {got}"
+                stats['native_confirmations'][f"{pid}:{name}:{m}"] = confirmed
+                continue
             if not native_ok:
                 continue      # timers / faults: confirmed by dedicated native scenarios (hv-replay finding ...)
             ncap = cap
